@@ -30,7 +30,7 @@ from .asyncenv import MemServerBackend, MemStreamTransport, loop_context
 
 NONTRIVIAL_RULE = "two lifecycle calls overlapped (a call was started while another had not finished), or a call landed in the listener-creation window"
 STUBS = ["DetLoop; MemServerBackend.create_tcp_listeners -> in-memory listeners (creation suspends 1 iteration); MemStreamTransport client"]
-ASSUMPTIONS = ["the threaded standalone servers (OS threads, ThreadsPortal) are NOT claimed: thread interleavings cannot be made symbolic by any installed engine"]
+ASSUMPTIONS = ["the threaded standalone servers (OS threads, ThreadsPortal) are NOT claimed: thread interleavings cannot be made symbolic by any installed engine; only the sequential hand-off post-condition of NetworkServerThread.run() is checked (server-thread shard)"]
 BOUNDS = {"quick": "K <= 5 lifecycle events from {step, serve_forever, shutdown, server_close}, with/without one connected client", "thorough": "K <= 7"}
 OUTSIDE = "standalone (threaded) servers, real listeners"
 
@@ -228,6 +228,58 @@ def lifecycle(K: int, client: bool, prefix: list = (), warm: bool = False, udp: 
     return scenario
 
 
+def server_thread():
+    """NetworkServerThread hand-off (threads_helper.py): start() = Thread.start() + wait for the 'server is up' event, which run()
+    must set in EVERY way serve_forever() can end - otherwise start() waits forever.  run() is executed here in the calling thread
+    (no OS thread) around a stub server whose serve_forever() ends in a solver-chosen way (sets the event and returns later / returns
+    without ever setting it, as when shutdown() lands during start-up / raises ServerClosedError, ServerAlreadyRunning or another
+    exception before or after setting it).  Asserted: when run() is over, the event start() waits on is set."""
+    from easynetwork.servers.abc import AbstractNetworkServer
+    from easynetwork.servers.threads_helper import NetworkServerThread
+
+    def scenario(S):
+        ending = S.choice(4, "ending")  # 0 return | 1 ServerClosedError | 2 ServerAlreadyRunning | 3 ValueError
+        sets_event = S.choice(2, "sets_event")
+
+        class Stub(AbstractNetworkServer):
+            def is_serving(self):
+                return False
+
+            def server_close(self):
+                pass
+
+            def shutdown(self, timeout=None):
+                pass
+
+            def get_addresses(self):
+                return ()
+
+            def serve_forever(self, *, is_up_event=None):
+                if sets_event and is_up_event is not None:
+                    is_up_event.set()
+                if ending == 1:
+                    raise ServerClosedError("Closed server")
+                if ending == 2:
+                    raise ServerAlreadyRunning("Server is already running")
+                if ending == 3:
+                    raise ValueError("boom")
+
+        th = NetworkServerThread(Stub(), daemon=True)
+        raised = None
+        try:
+            th.run()
+        except Exception as e:  # noqa: BLE001
+            raised = type(e).__name__
+        ev = th._NetworkServerThread__is_up_event
+        problems = []
+        if not ev.is_set():
+            problems.append("run() is over but the 'server is up' event is not set: NetworkServerThread.start() would wait forever")
+        tags = ("ended-before-up",) if not sets_event else ()
+        return Outcome(ok=not problems, skeleton=[ending, sets_event], tags=tags, detail={"problems": problems, "ending": ending, "sets_event": sets_event, "raised": raised})
+
+    return scenario
+
+
 def shards(tier: str):
     import itertools
 
@@ -248,4 +300,5 @@ def shards(tier: str):
                 continue
             for pre in itertools.product(range(4), repeat=2):
                 out.append({"name": f"lifecycle-udp/{'datagram' if client else 'idle'}/{'warm' if warm else 'cold'}/K{K}/pre{pre[0]}{pre[1]}", "scenario": "props.c18:lifecycle", "params": dict(K=K, client=client, warm=warm, prefix=list(pre), udp=True), "budget": B, "cost": 4 ** (K - 2), "per_path_timeout": 30})
+    out.append({"name": "server-thread/handoff", "scenario": "props.c18:server_thread", "params": {}, "budget": B, "cost": 8, "per_path_timeout": 30})
     return out
